@@ -766,6 +766,17 @@ class HistoryRunner:
         self.c("precomputes")
 
     # --- invariants ------------------------------------------------------------------
+    def op_device(self):
+        """Moving the values to the device they are already on changes nothing (values, cache, pending fork)."""
+        self.log.append(("to_device", "cpu"))
+        try:
+            self.real.to_device(torch.device("cpu"))
+        except Exception as e:
+            self.viol("state/to_device/raises", f"to_device(cpu) raised {e!r}", self.log)
+            return
+        self.c("to_device_ops")
+        self.quiescent(tag="after-to_device")
+
     def quiescent(self, state=None, ref=None, tag="quiescent"):
         """Every non-None cache entry equals its from-scratch value; independent entries equal the reference bit-wise."""
         state = state or self.real
